@@ -35,7 +35,7 @@ ASSUMPTIONS = ['shrunk definitions remove only tasks not referenced by any '
 MIN = {'c27.reloads': 150, 'c27.tasks_compared': 800,
        'c27.reload:extended': 30, 'c27.reload:shrunk': 30,
        'c27.kept_prereqs_compared': 300, 'c27.new_prereqs_checked': 15}
-NCASES = {'quick': 240, 'thorough': 3000}
+NCASES = {'quick': 800, 'thorough': 10000}
 MONS = ['c27', 'c26']
 
 
